@@ -34,7 +34,7 @@ FLOORS = {"hierarchies:override": 0.1, "hierarchies:noninit-noncompare": 0.1, "h
 
 PROP_KINDS = {"int": ("int", "3"), "str": ("str", '"s"'), "bool": ("bool", "True"), "optint": ("int | None", "None"),
               "enum": ("Color", "Color.RED"), "fsenum": ("frozenset[Color]", "frozenset()")}
-CHILD_KINDS = ["one", "opt", "union", "tuple", "fixed"]
+CHILD_KINDS = ["one", "opt", "union", "tuple", "fixed", "aone", "atuple"]
 SYSTEM = ("id", "content_id", "origin")
 
 
@@ -50,6 +50,9 @@ def ann_of(kind: str) -> dict:
         return {"k": "scalar", "n": kind}
     return {
         "one": n("NodeA"), "opt": {"k": "opt", "of": n("NodeA")},
+        # Annotated[...] around a child annotation (metadata that is no str), outside and inside the tuple
+        "aone": {"k": "annotated", "of": n("NodeA"), "meta": 1},
+        "atuple": {"k": "tuple_var", "of": {"k": "annotated", "of": n("NodeA"), "meta": 2.5}},
         "union": {"k": "union", "of": [n("NodeA"), n("NodeB"), {"k": "none"}], "pipe": True},
         "tuple": {"k": "tuple_var", "of": n("NodeA")}, "fixed": {"k": "tuple_fix", "of": [n("NodeA"), n("NodeB")]},
     }[kind]
@@ -64,7 +67,7 @@ def to_classes(spec: dict) -> list[dict]:
             if kind in PROP_KINDS:
                 default = f.get("default") or PROP_KINDS[kind][1]
             else:
-                default = "()" if kind in ("tuple", "fixed") else "None"
+                default = "()" if kind in ("tuple", "fixed", "atuple") else "None"
             flags = {}
             if not f.get("init", True):
                 flags["init"] = False
@@ -130,13 +133,13 @@ def make_instance(mod: CF.Module, cls: Any, eff: list[dict], variant: int) -> tu
             color = mod.mod.__dict__["Color"]
             kw[f["name"]] = {"int": 10 + j, "str": f"v{j}", "bool": j % 2 == 0, "optint": None if variant == 1 else j,
                              "enum": color.GREEN, "fsenum": frozenset({color.RED})}[kind]
-        elif kind == "one":
+        elif kind in ("one", "aone"):
             kw[f["name"]] = F(n=j) if variant == 2 else A(n=j)
         elif kind == "opt":
             kw[f["name"]] = None if variant == 1 else (F(n=j) if variant == 2 else S(n=j))
         elif kind == "union":
             kw[f["name"]] = None if variant == 1 else (F(n=j) if variant == 2 else B(n=j))
-        elif kind == "tuple":
+        elif kind in ("tuple", "atuple"):
             rep = A(n=j)  # (variant 0: one object at two positions of the tuple)
             kw[f["name"]] = () if variant == 1 else ((F(n=j), A(n=j + 1), F(n=j + 2)) if variant == 2 else (rep, S(n=j + 1), rep))
         elif kind == "fixed":
@@ -199,7 +202,7 @@ def check_class(mod: CF.Module, classes: list[dict], k: int, lab: Labels, first:
                 exp_first = []
                 for f in by_name:
                     v = getattr(inst, f["name"])
-                    exp_first += list(v) if f["kind"] in ("tuple", "fixed") else ([v] if v is not None else [])
+                    exp_first += list(v) if f["kind"] in ("tuple", "fixed", "atuple") else ([v] if v is not None else [])
                 got_n1 = list(inst.get_child_nodes(sort_keys=True))
                 require(len(got_n1) == len(exp_first) and all(a is b_ for a, b_ in zip(got_n1, exp_first)), "get_child_nodes",
                         f"C{k}: the first call ever on the class, with sort_keys=True")
@@ -249,7 +252,7 @@ def check_class(mod: CF.Module, classes: list[dict], k: int, lab: Labels, first:
             exp_nodes = []
             for f in ordered:
                 v = val(f)
-                if f["kind"] in ("tuple", "fixed"):
+                if f["kind"] in ("tuple", "fixed", "atuple"):
                     exp_nodes += [(x, f["name"], i) for i, x in enumerate(v)]
                 elif v is not None:
                     exp_nodes.append((v, f["name"], None))
